@@ -125,6 +125,8 @@ def install(I):
     @M(r'^dashmap::VacantEntry::<.*>::insert$|^VacantEntry::<.*>::insert$', 'dashmap VacantEntry::insert')
     def m_dm_vinsert(I, st, f, args, fr):
         e = args[0]
+        if not (isinstance(e, Agg) and e.fields and isinstance(e.fields[0], Obj) and e.fields[0].kind == 'dashmap'):
+            return NotImplemented
         m, k = e.fields[0], e.fields[1].concrete()
         name = I.objinfo.get(m.oid, {}).get('name', str(m.oid))
         ident = val_ident(I, st, m, args[1])
@@ -134,11 +136,15 @@ def install(I):
     @M(r'^dashmap::OccupiedEntry::<.*>::(key|get)$|^OccupiedEntry::<.*>::(key|get)$', 'dashmap OccupiedEntry::{key,get}')
     def m_dm_okey(I, st, f, args, fr):
         e = deref_val(I, st, args[0])
+        if not (isinstance(e, Agg) and e.fields and isinstance(e.fields[0], Obj) and e.fields[0].kind == 'dashmap'):
+            return NotImplemented      # an entry of a std HashMap (models_coll)
         if f.endswith('key'):
             return I.ret(st, e.fields[2])
         return I.ret(st, e.fields[3])
 
     def drop_entry(I, st, v, ref):
+        if not (v.fields and isinstance(v.fields[0], Obj) and v.fields[0].kind == 'dashmap'):
+            return I.ret(st, UNIT)     # std HashMap entry: nothing held
         m, k = v.fields[0], v.fields[1].concrete()
         name = I.objinfo.get(m.oid, {}).get('name', str(m.oid))
         I.shared_op(st, m, 'release', objects.dashmap_release(I.cur_tid, k), {}, label='%s.release' % name, info=('release', k))
